@@ -139,3 +139,13 @@ META["C17"] = dict(
     trusted_base=COMMON_TB + ["MV.I interval enclosures (log) for Log ticks"],
     assumptions=["finite domains; Log domains exclude zero; Base not 1 or negative"],
 )
+
+META["C11"] = dict(
+    level_text="Theorems (Lean, n<=30, all n q c): the greedy mirror keeps the invariant accum = sum of PMF over [l,r), starts at a binomial mode, returns orders in [0,n+1] with lo<hi, confidence >= c unless the interval is the whole range, its last added bucket was needed, intervals are nested in c, and Ambiguous implies the shifted interval has equal mass. Correspondence: QuantileCI of the real code is compared with the mirror off float near-ties, and every clause of the property is evaluated exactly (rational binomial masses) on the code's own output for every (n<=30, q grid, c grid incl. each cumulative level and its float neighbours); for n>30 the band is checked against interval enclosures of the normal quantile/CDF; SampleCI against sorted order statistics.",
+    level_note="Trusted: Lean kernel, harness sampling, MV.I.Phi enclosure (n>30). Near-tie policy: when two bucket masses or accum and c are within 1e-12 the (lo,hi,Ambiguous) equality is skipped (clauses still checked).",
+    technique="Lean 4 invariant proofs for the greedy accumulation + exact rational clause evaluation on the code's outputs",
+    rule="qci n q [c...] (ascending c, one line per (n,q)); n=1..30 with q on {j/40} and 1e-9, 1-1e-9 (quick: n<=6 all, 1/4 of the rest), c on a grid of 12 (thorough 200) levels plus 0.9,0.95,0.99,0.999,1,1.5,-0.1 plus every cumulative confidence level of the greedy accumulation and its two float neighbours; n in {31,32,50,100,1000,2000} and random n<=330 for the normal branch; sci n q c xs sorted for SampleCI. non-trivial = n>=2 and 0<q<1",
+    exhaustive_part="n=1..30 x q grid (thorough) x c grid with all cumulative levels",
+    trusted_base=COMMON_TB + ["MV.I.Phi enclosure of the normal CDF and its inverse by bisection (n>30)"],
+    assumptions=["n>=1, 0<=q<=1", "the interval is allowed to contain either mode when (n+1)q is an integer"],
+)
